@@ -8,6 +8,8 @@ package fakeconn
 import (
 	"fmt"
 	"strings"
+
+	"verif/mc/chlex"
 )
 
 type tokKind int
@@ -42,109 +44,39 @@ func (t token) String() string {
 	return t.Val
 }
 
-func isIdentStart(c byte) bool { return c == '_' || (c >= 'a' && c <= 'z') || (c >= 'A' && c <= 'Z') }
-func isDigit(c byte) bool      { return c >= '0' && c <= '9' }
-
-// lex tokenises one statement.  Comments (-- and /* */) are skipped.
+// lex tokenises one statement with the ClickHouse-compatible tokenizer verif/mc/chlex (whitespace of any kind and
+// the three comment styles are dropped, string literals and quoted identifiers are decoded the way ClickHouse
+// decodes them).  `$n` — a bare word for ClickHouse's lexer — is the positional parameter of clickhouse-go.
 func lex(s string) ([]token, error) {
 	var out []token
-	i := 0
-	for i < len(s) {
-		c := s[i]
-		switch {
-		case c == ' ' || c == '\t' || c == '\n' || c == '\r':
-			i++
-		case c == '-' && i+1 < len(s) && s[i+1] == '-':
-			for i < len(s) && s[i] != '\n' {
-				i++
+	for _, t := range chlex.Tokenize(s) {
+		end := t.Pos + len(t.Text)
+		switch t.Kind {
+		case chlex.Whitespace, chlex.Comment:
+		case chlex.BareWord:
+			if len(t.Text) > 1 && t.Text[0] == '$' && strings.Trim(t.Text[1:], "0123456789") == "" {
+				out = append(out, token{tParam, t.Text[1:], t.Pos, end})
+			} else {
+				out = append(out, token{tIdent, t.Text, t.Pos, end})
 			}
-		case c == '/' && i+1 < len(s) && s[i+1] == '*':
-			j := strings.Index(s[i+2:], "*/")
-			if j < 0 {
-				return nil, fmt.Errorf("unterminated comment at %d", i)
+		case chlex.Number:
+			out = append(out, token{tNumber, t.Text, t.Pos, end})
+		case chlex.StringLiteral, chlex.HereDoc:
+			v, err := chlex.DecodeString(t)
+			if err != nil {
+				return nil, fmt.Errorf("string literal at %d: %v", t.Pos, err)
 			}
-			i += j + 4
-		case isIdentStart(c):
-			j := i + 1
-			for j < len(s) && (isIdentStart(s[j]) || isDigit(s[j])) {
-				j++
+			out = append(out, token{tString, v, t.Pos, end})
+		case chlex.QuotedIdentifier:
+			v, err := chlex.DecodeIdentifier(t)
+			if err != nil {
+				return nil, fmt.Errorf("quoted identifier at %d: %v", t.Pos, err)
 			}
-			out = append(out, token{tIdent, s[i:j], i, j})
-			i = j
-		case isDigit(c):
-			j := i + 1
-			for j < len(s) && (isDigit(s[j]) || s[j] == '.') {
-				j++
-			}
-			out = append(out, token{tNumber, s[i:j], i, j})
-			i = j
-		case c == '$' && i+1 < len(s) && isDigit(s[i+1]):
-			j := i + 1
-			for j < len(s) && isDigit(s[j]) {
-				j++
-			}
-			out = append(out, token{tParam, s[i+1 : j], i, j})
-			i = j
-		case c == '\'':
-			var b strings.Builder
-			j := i + 1
-			closed := false
-			for j < len(s) {
-				if s[j] == '\\' && j+1 < len(s) {
-					switch s[j+1] {
-					case 'n':
-						b.WriteByte('\n')
-					case 't':
-						b.WriteByte('\t')
-					case '0':
-						b.WriteByte(0)
-					default:
-						b.WriteByte(s[j+1])
-					}
-					j += 2
-					continue
-				}
-				if s[j] == '\'' {
-					if j+1 < len(s) && s[j+1] == '\'' {
-						b.WriteByte('\'')
-						j += 2
-						continue
-					}
-					closed = true
-					j++
-					break
-				}
-				b.WriteByte(s[j])
-				j++
-			}
-			if !closed {
-				return nil, fmt.Errorf("unterminated string at %d", i)
-			}
-			out = append(out, token{tString, b.String(), i, j})
-			i = j
-		case c == '`' || c == '"':
-			j := strings.IndexByte(s[i+1:], c)
-			if j < 0 {
-				return nil, fmt.Errorf("unterminated quoted identifier at %d", i)
-			}
-			out = append(out, token{tQIdent, s[i+1 : i+1+j], i, i + j + 2})
-			i += j + 2
+			out = append(out, token{tQIdent, v, t.Pos, end})
+		case chlex.Punct:
+			out = append(out, token{tPunct, t.Text, t.Pos, end})
 		default:
-			if i+1 < len(s) {
-				two := s[i : i+2]
-				switch two {
-				case "->", "::", "!=", "<>", "||", ">=", "<=", "==":
-					out = append(out, token{tPunct, two, i, i + 2})
-					i += 2
-					continue
-				}
-			}
-			if strings.IndexByte("(),.;=+-*/%<>![]:?{}", c) >= 0 {
-				out = append(out, token{tPunct, string(c), i, i + 1})
-				i++
-				continue
-			}
-			return nil, fmt.Errorf("unexpected character %q at %d", c, i)
+			return nil, fmt.Errorf("lexical error at %d: %q %s", t.Pos, t.Text, t.Err)
 		}
 	}
 	out = append(out, token{tEOF, "", len(s), len(s)})
@@ -173,4 +105,30 @@ func norm(ts []token) string {
 		b.WriteString(s)
 	}
 	return b.String()
+}
+
+// Tok is an exported view of a token: Kind ∈ ident qident string number param punct.
+type Tok struct {
+	Kind string
+	Val  string
+}
+
+// Tokens tokenises a statement (whitespace and comments dropped, literals decoded); a trailing ';' is dropped.
+func Tokens(sql string) ([]Tok, error) {
+	ts, err := lex(sql)
+	if err != nil {
+		return nil, err
+	}
+	names := [...]string{"ident", "qident", "string", "number", "param", "punct"}
+	out := make([]Tok, 0, len(ts))
+	for _, t := range ts {
+		if t.Kind == tEOF {
+			break
+		}
+		out = append(out, Tok{names[t.Kind], t.Val})
+	}
+	for len(out) > 0 && out[len(out)-1].Kind == "punct" && out[len(out)-1].Val == ";" {
+		out = out[:len(out)-1]
+	}
+	return out, nil
 }
